@@ -220,6 +220,15 @@ def reorder(data, order):
 def b3_file(chk, bench, label, data, orders, solo_cache, api=True, warm=False, builder=None):
     """the batch in several orderings (the first one is the reference) and, last, built through the API; every entry is
     compared with (solo) the run of its unit alone and (ref) the same entry of the reference ordering"""
+    import time as _t
+    _t0 = _t.time()
+    try:
+        return _b3_file(chk, bench, label, data, orders, solo_cache, api, warm, builder)
+    finally:
+        chk.cov.setdefault('b3_wall_s_per_batch', {})[label] = round(_t.time() - _t0, 1)
+
+
+def _b3_file(chk, bench, label, data, orders, solo_cache, api, warm, builder):
     traces, runs = [], {}
     ref = None
     todo = [(oname, order, 'json', None) for oname, order in orders]
@@ -397,7 +406,7 @@ def run(chk):
     # the XLSX service-sheet entry point (site names resolved to the amplifier of the crossing direction): a sheet with
     # all the rows, in two orders, against sheets holding one row each
     rows = pu.sheet_rows()
-    ids = list(rows) if chk.tier == 'thorough' else list(rows)[:5]
+    ids = list(rows) if chk.tier == 'thorough' else list(rows)[:4]
     orders = [('original', list(range(len(ids)))), ('reversed', list(reversed(range(len(ids)))))]
     jobs += b3_file(chk, 'ila', 'sheet@ila', {'path-request': [{'request-id': i} for i in ids]}, orders, cache, api=False,
                     builder=pu.sheet_builder(rows))
@@ -417,7 +426,7 @@ def run(chk):
     # mixing channel counts (the spacing / channel-count variants of a base request), forced and automatic mode,
     # uni- and bidirectional
     for bench in (['meshV2+island@ggn'] if chk.tier == 'quick' else ['meshV2+island@ggn', 'meshV2+island@ggnss']):
-        for label, reqs in pu.near_identical(bench):
+        for label, reqs in pu.near_identical(bench, light=chk.tier == 'quick'):
             n = len(reqs)
             orders = [('original', list(range(n))), ('reversed', list(reversed(range(n))))]
             jobs += b3_file(chk, bench, f'{label}@{bench}', {'path-request': reqs}, orders, cache, api=False)
@@ -448,8 +457,15 @@ def run(chk):
         bench = 'meshV2+island'
         eqb = pu.bench_equipment(pu.BENCH_EQPT[bench])
         reqs = pu.loadable(bench, pu.random_batch(rng, bench, f'p{b}-', 8))
-        ptraces.append(pipeline.record_run(f'pipeline-{b}', lambda: network_from_json(_copy.deepcopy(pu._topo(bench)), eqb),
-                                           eqb, {'path-request': reqs}))
+        try:
+            ptraces.append(pipeline.record_run(f'pipeline-{b}',
+                                               lambda: network_from_json(_copy.deepcopy(pu._topo(bench)), eqb),
+                                               eqb, {'path-request': reqs}))
+        except Exception as ex:              # noqa: the stage recorder indexes the result lists by request: a run whose
+            import traceback                 # lists are misaligned (or that raises) is the code's doing, not the harness's
+            chk.violation(f'pipeline|exception-while-recording-a-run|{type(ex).__name__}',
+                          dict(batch=f'pipeline-{b}', exception=f'{type(ex).__name__}: {ex}', tb=traceback.format_exc(),
+                               requests=reqs))
     nok = pipeline.judge(ptraces, chk)
     chk.traces += nok
     chk.cov['pipeline_traces'] = len(ptraces)
